@@ -1,4 +1,6 @@
+mod evalseq;
 mod fakecli;
+mod fakeirrd;
 mod frame;
 mod memtransport;
 mod sshserver;
@@ -32,6 +34,7 @@ fn main() {
     }
     match op.as_str() {
         "frame" => frame::main(&opts),
+        "evalseq" => evalseq::main(&opts),
         _ => {
             eprintln!("unknown op {op}");
             std::process::exit(2);
